@@ -62,6 +62,10 @@ impl<'tcx> Cx<'tcx> {
         self.tcx.def_path_str(did)
     }
 
+    fn canon(&self, did: DefId) -> String {
+        format!("{}{}", self.tcx.crate_name(did.krate), self.tcx.def_path(did).to_string_no_crate_verbose())
+    }
+
     fn ty_str(&self, t: Ty<'tcx>) -> String {
         format!("{}", t)
     }
@@ -178,6 +182,7 @@ impl<'tcx> Cx<'tcx> {
         match ty.kind() {
             ty::FnDef(did, args) => {
                 let _ = write!(s, ",\"fn\":{}", esc(&self.path(*did)));
+                let _ = write!(s, ",\"fn_canon\":{}", esc(&self.canon(*did)));
                 let _ = write!(s, ",\"local\":{}", did.is_local());
                 let ga: Vec<String> = args.iter().map(|a| esc(&format!("{}", a))).collect();
                 let _ = write!(s, ",\"gargs\":[{}]", ga.join(","));
@@ -398,6 +403,7 @@ impl<'tcx> Cx<'tcx> {
                             _ => "shim",
                         };
                         let _ = write!(s, ",\"path\":{}", esc(&self.path(rdid)));
+                        let _ = write!(s, ",\"canon\":{}", esc(&self.canon(rdid)));
                         let _ = write!(s, ",\"ik\":\"{}\"", kind);
                         let _ = write!(s, ",\"local\":{}", rdid.is_local());
                         let is_virtual = matches!(inst.def, ty::InstanceKind::Virtual(..));
@@ -426,6 +432,7 @@ impl<'tcx> Cx<'tcx> {
                     }
                     if let ty::Closure(cdid, _) = t.kind() {
                         let _ = write!(s, ",\"self_closure\":{}", esc(&self.path(*cdid)));
+                        let _ = write!(s, ",\"self_closure_canon\":{}", esc(&self.canon(*cdid)));
                     }
                     if let ty::FnDef(fdid, _) = t.kind() {
                         let _ = write!(s, ",\"self_fn\":{}", esc(&self.path(*fdid)));
@@ -479,6 +486,7 @@ impl<'tcx> Cx<'tcx> {
         let mut s = String::with_capacity(8192);
         s.push('{');
         let _ = write!(s, "\"path\":{}", esc(path));
+        let _ = write!(s, ",\"canon\":{}", esc(&format!("{}{}", self.canon(did), if kstr == "promoted" { path.rsplit("::").next().unwrap_or("").to_string() } else { String::new() })));
         let _ = write!(s, ",\"kind\":\"{}\",\"unit\":{}", kstr, esc(unit));
         let (file, lo, hi) = self.line_of(body.span);
         let _ = write!(s, ",\"file\":{},\"lo\":{},\"hi\":{}", esc(&file), lo, hi);
